@@ -46,6 +46,7 @@ pub struct Fix {
     pub claim_id: u64,
     pub alloc_id: u64,
     pub txn_id: i64,
+    pub txn3: i64,
     pub keys: BTreeMap<Address, Address>,
 }
 
@@ -96,6 +97,16 @@ pub fn fixture(variant: u64) -> Fix {
     let pp = fil_actor_multisig::ProposeParams { to: secp[3], value: atto(5), method: METHOD_SEND, params: RawBytes::default() };
     let (r, _) = call(&v, &s1, &msig, &TokenAmount::zero(), fil_actor_multisig::Method::Propose as u64, Some(&pp));
     let txn_id = ret::<fil_actor_multisig::ProposeReturn>(&r).unwrap().txn_id.0;
+    // a 3-of-3 multisig whose pending transaction was proposed by signer1 and approved by signer2
+    let s3 = bls[5];
+    who.insert("signer3", s3);
+    let cp3 = fil_actor_multisig::ConstructorParams { signers: vec![s1, s2, s3], num_approvals_threshold: 3, unlock_duration: 0, start_epoch: 0 };
+    let (r, _) = call(&v, &s1, &INIT_ACTOR_ADDR, &fil(100), fil_actor_init::Method::Exec as u64, Some(&fil_actor_init::ExecParams { code_cid: *MULTISIG_ACTOR_CODE_ID, constructor_params: RawBytes::serialize(&cp3).unwrap() }));
+    let msig3 = ret::<fil_actor_init::ExecReturn>(&r).unwrap().id_address;
+    who.insert("msig3", msig3);
+    let (r, _) = call(&v, &s1, &msig3, &TokenAmount::zero(), fil_actor_multisig::Method::Propose as u64, Some(&pp));
+    let txn3 = ret::<fil_actor_multisig::ProposeReturn>(&r).unwrap().txn_id.0;
+    assert!(call(&v, &s2, &msig3, &TokenAmount::zero(), fil_actor_multisig::Method::Approve as u64, Some(&fil_actor_multisig::TxnIDParams { id: fil_actor_multisig::TxnID(txn3), proposal_hash: vec![] })).0.code.is_success());
     // an unrelated multisig as caller class
     let cp2 = fil_actor_multisig::ConstructorParams { signers: vec![secp[3]], num_approvals_threshold: 1, unlock_duration: 0, start_epoch: 0 };
     let (r, _) = call(&v, &secp[3], &INIT_ACTOR_ADDR, &fil(1), fil_actor_init::Method::Exec as u64, Some(&fil_actor_init::ExecParams { code_cid: *MULTISIG_ACTOR_CODE_ID, constructor_params: RawBytes::serialize(&cp2).unwrap() }));
@@ -141,7 +152,7 @@ pub fn fixture(variant: u64) -> Fix {
         call0(&v, &secp[3], &who[n], &fil(50), METHOD_SEND);
     }
     v.invs.borrow_mut().clear();
-    Fix { v, who, deal_id, claim_id, alloc_id, txn_id, keys }
+    Fix { v, who, deal_id, claim_id, alloc_id, txn_id, txn3, keys }
 }
 
 pub struct Cell {
@@ -229,6 +240,8 @@ pub fn spec() -> Vec<Cell> {
     c.push(cell!("msig", Ms::Propose, "Propose", only(&["signer1", "signer2"]), move |f: &Fix, _| (zero(), ser(&fil_actor_multisig::ProposeParams { to: f.who["stranger"], value: atto(3), method: METHOD_SEND, params: RawBytes::default() }))));
     c.push(cell!("msig", Ms::Approve, "Approve", only(&["signer2"]), move |f: &Fix, _| (zero(), ser(&fil_actor_multisig::TxnIDParams { id: fil_actor_multisig::TxnID(f.txn_id), proposal_hash: vec![] }))));
     c.push(cell!("msig", Ms::Cancel, "Cancel", only(&["signer1"]), move |f: &Fix, _| (zero(), ser(&fil_actor_multisig::TxnIDParams { id: fil_actor_multisig::TxnID(f.txn_id), proposal_hash: vec![] }))));
+    c.push(cell!("msig3", Ms::Cancel, "Cancel(approved by a second signer)", only(&["signer1"]), move |f: &Fix, _| (zero(), ser(&fil_actor_multisig::TxnIDParams { id: fil_actor_multisig::TxnID(f.txn3), proposal_hash: vec![] }))));
+    c.push(cell!("msig3", Ms::Approve, "Approve(third signer)", only(&["signer3"]), move |f: &Fix, _| (zero(), ser(&fil_actor_multisig::TxnIDParams { id: fil_actor_multisig::TxnID(f.txn3), proposal_hash: vec![] }))));
     c.push(cell!("msig", Ms::AddSigner, "AddSigner", only(&["msig"]), move |f: &Fix, _| (zero(), ser(&fil_actor_multisig::AddSignerParams { signer: f.who["stranger"], increase: false }))));
     c.push(cell!("msig", Ms::RemoveSigner, "RemoveSigner", only(&["msig"]), move |f: &Fix, _| (zero(), ser(&fil_actor_multisig::RemoveSignerParams { signer: f.who["signer2"], decrease: true }))));
     c.push(cell!("msig", Ms::SwapSigner, "SwapSigner", only(&["msig"]), move |f: &Fix, _| (zero(), ser(&fil_actor_multisig::SwapSignerParams { from: f.who["signer2"], to: f.who["stranger"] }))));
@@ -303,7 +316,7 @@ pub fn spec() -> Vec<Cell> {
 
 pub const CALLERS: &[&str] = &[
     "system", "init", "reward", "cron", "power", "market", "verifreg", "datacap", "eam", "rootmsig", "miner", "miner2", "owner", "worker", "control", "beneficiary",
-    "stranger", "signer1", "signer2", "msig", "othermsig", "payer", "payee", "paych", "verifier", "client", "evm", "ethaccount",
+    "stranger", "signer1", "signer2", "signer3", "msig", "msig3", "othermsig", "payer", "payee", "paych", "verifier", "client", "evm", "ethaccount",
 ];
 
 fn designated(f: &Fix, cell: &Cell, caller: &'static str) -> bool {
